@@ -383,6 +383,11 @@ def saslprep(run, part, parts):
             one("".join(combo), "bidi")
     for _ in range(300):
         one("".join(rng.choice(pool + [R[2], L[2]]) for _ in range(rng.randint(4, 7))), "bidi")
+    # characters the mapping step deletes, placed between characters that compose (mapping comes before normalisation)
+    for base, mark in (("a", "\u0301"), ("e", "\u0308"), ("\u1100", "\u1161"), ("A", "\u030a"), ("\u05d3", "\u05bc")):
+        for gone in ("\u00ad", "\u200c", "\u200d", "\u2060", "\ufeff", "\ufe00", "\u1806", "\u034f"):
+            for s_ in (base + gone + mark, base + mark + gone, gone + base + mark, "x" + base + gone + gone + mark + "y"):
+                one(s_, "mapped-between-composing")
     run.case(("saslprep", "bidi", part), dict(primitive="saslprep", strings="all sequences of length 2..3 over " + repr(pool)))
 
 
